@@ -28,6 +28,7 @@ type Opts struct {
 	Digest            bool
 	ReplayChecks      int // C19: number of replay-twin checkpoints per case
 	MaxComponents     int // 256, or 64 under ark_tiny
+	LatePct           int // share of cases whose registry grows across a boundary during the history (default 33)
 	Avoid             map[string]bool
 	ShrinkBounds      bool
 	ShrinkConverge    bool
@@ -84,10 +85,14 @@ func DrawConfig(r *Rng, o *Opts) Config {
 	}
 	// in a third of the cases the registry starts a few types below a 64-ID boundary and grows across it
 	// during the history
-	if r.Chance(33) {
+	latePct := 33
+	if o.LatePct > 0 {
+		latePct = o.LatePct
+	}
+	if r.Chance(latePct) {
 		c.Late = 4 + r.Intn(8)
 		var starts []int
-		for _, b := range []int{64, 128, 192, 256} {
+		for _, b := range []int{32, 64, 128, 192, 256} {
 			if b <= o.MaxComponents {
 				starts = append(starts, b-u.N-c.Late/2)
 			}
@@ -290,6 +295,10 @@ func RunCase(seed uint64, idx int, p *Profile, o *Opts, st *Stats) (cr *CaseResu
 					m.Queries[s].Open = false
 				}
 			}
+		}
+		if op.Leak != nil && d.Leaked() {
+			m.Commit(m.Plan(op.Leak))
+			cr.Cov["query-left-open-in-callback"]++
 		}
 		for _, s := range d.UnregDuring() {
 			m.Obs[s].Registered = false
@@ -550,6 +559,9 @@ func replayTwin(d *Drv, cfg Config, ops []*Op, o *Opts, cr *CaseResult) {
 			}
 		}
 		m2.Commit(x)
+		if op.Leak != nil && d2.Leaked() {
+			m2.Commit(m2.Plan(op.Leak))
+		}
 		for _, s := range d2.UnregDuring() {
 			m2.Obs[s].Registered = false
 		}
@@ -646,6 +658,9 @@ func BuildFrozen(seed uint64, idx int, p *Profile, o *Opts, nops int) (*Drv, *Mo
 			}
 		}
 		m.Commit(x)
+		if op.Leak != nil && d.Leaked() {
+			m.Commit(m.Plan(op.Leak))
+		}
 		for _, s := range d.Exhausted() {
 			m.QueryClosed(s)
 		}
